@@ -234,7 +234,10 @@ pub fn judge(cfg: &Cfg, res: &RunResult) -> Vec<(String, String)> {
                     continue;
                 }
                 let age = t.saturating_sub(*sent);
-                let definitely = age <= 1_490;
+                // a datagram the node's decoder rejects as a whole (e.g. a values entry of 7 bytes) does not
+                // complete the exchange: the query stays outstanding and a later response with its id counts
+                let decodable = !p.values_malformed && btdht::message::Message::decode(&d.bytes).is_ok();
+                let definitely = age <= 1_490 && decodable;
                 let possibly = age <= 1_510;
                 if possibly {
                     if definitely {
